@@ -61,6 +61,51 @@ def runner_c17(pid, tier, seed, driver, BUILD, REPO):
     rep = {'evaluations': len(rows), 'distinct_nontrivial': len(set(rows)), 'compared_with_model': 0, 'oracle_checked': 0,
            'rule': 'rows of Generated/Abi.lean (enumerators, struct fields, prototypes, Rust FFI items, Go constants/switch/conversions/length formula) re-read from the four source files on this run; every theorem is a decide/rfl over the whole table',
            'samples': rows[:6], 'distribution': {'rows': len(rows)}, 'failures': [], 'notes': ['no Go toolchain in this sandbox: go-kodama is read, never compiled'], 'extra': {}, 'checked_build': False}
+    # behavioural cross-check (gives a concrete failing input when a name/enumerator mismatch is real):
+    # call every enumerator BY ITS HEADER NAME through libkodama.a, once with each header copy, on a
+    # witness matrix on which the seven methods give seven different dendrograms, and compare with
+    # Rust `linkage(.., Method::<namesake>)`.
+    try:
+        import random
+        paths, errors = run_capi.build_all(BUILD, REPO, need_ref=True, need_asan=False)
+        lib = os.path.join(os.path.dirname(paths[('release', 'plain')]), '') if ('release', 'plain') in paths else None
+        exe1 = paths.get(('release', 'plain'))
+        exe2 = None
+        if exe1:
+            import glob as _g
+            libs = [a for a in _g.glob(os.path.join(BUILD, 'capi*', 'release', 'libkodama.a'))]
+            exe2 = os.path.join(os.path.dirname(exe1), 'cdriver-release-goheader')
+            if libs:
+                cc = ['clang', '-std=gnu11', '-O1', '-g', '-I', os.path.join(REPO, 'go-kodama'), run_capi.CDRIVER, libs[0], '-o', exe2, '-lpthread', '-ldl', '-lm']
+                r = subprocess.run(cc, capture_output=True, text=True)
+                if r.returncode != 0:
+                    rep['notes'].append('C driver does not compile against go-kodama/kodama.h: ' + r.stderr[-300:])
+                    exe2 = None
+        names = ['kodama_method_' + x for x in ('single', 'complete', 'average', 'weighted', 'ward', 'centroid', 'median')]
+        rng = random.Random(seed)
+        if exe1 and 'ref' in paths:
+            for attempt in range(20):
+                vals = rng.sample(range(1, 60), 15)
+                bits = [run_capi.f64bits(float(v)) for v in vals]
+                scripts = {k: ['create 0 double %s 6 %s' % (nm, ' '.join(map(str, bits))), 'steps 0', 'free 0'] for k, nm in enumerate(names)}
+                inp = ''.join('case %d\n%s\n' % (k, '\n'.join(scripts[k])) for k in scripts)
+                ref = subprocess.run([paths['ref']], input=inp, capture_output=True, text=True).stdout
+                refl = [l for l in ref.split('\n') if l.startswith('steps')]
+                if len(set(refl)) == 7:
+                    break
+            for tag, exe in (('kodama-capi/include/kodama.h', exe1), ('go-kodama/kodama.h', exe2)):
+                if not exe:
+                    continue
+                out = subprocess.run([exe], input=inp, capture_output=True, text=True).stdout
+                got = [l for l in out.split('\n') if l.startswith('steps')]
+                rep['evaluations'] += 7
+                rep['oracle_checked'] += 7
+                for k, nm in enumerate(names):
+                    if k >= len(got) or k >= len(refl) or got[k] != refl[k]:
+                        rep['failures'].append({'kind': 'oracle', 'what': 'enumerator %s (header %s) does not run the linkage method of the same name: result differs from Rust linkage(Method::%s)' % (nm, tag, nm.split('_')[-1].capitalize()),
+                                                'ops': scripts[k], 'impl': [got[k] if k < len(got) else 'no output'], 'model': [refl[k] if k < len(refl) else 'no output']})
+    except Exception as e:  # noqa
+        rep['notes'].append('behavioural enumerator cross-check could not run: %r' % (e,))
     if tier == 'thorough':
         t = os.path.join(os.path.dirname(os.path.abspath(__file__)), 'test_abi_mutations.py')
         try:
